@@ -67,16 +67,16 @@ func has(l []string, s string) bool {
 var scalarFamilies = []string{"quad", "sepconv", "logistic", "rosen"}
 
 var routines = []*routine{
-	{name: "bfgs", families: scalarFamilies, variants: []string{""}, hookKind: "gy", iterBy: "eval", consOpt: true, hookOpt: true, smallCap: 3, bigCap: 300, epsDiv: 1, run: runBfgs},
-	{name: "newton.root", families: []string{"polyroot"}, variants: []string{"None"}, hookKind: "gy", iterBy: "eval", consOpt: true, hookOpt: true, smallCap: 3, bigCap: 100, epsDiv: 1, run: runNewtonRoot},
-	{name: "newton.crit", families: scalarFamilies, variants: []string{"None", "LDL", "Eigenvalue"}, hookKind: "g", iterBy: "eval", consOpt: true, hookOpt: true, smallCap: 3, bigCap: 100, epsDiv: 1, run: runNewtonCrit},
-	{name: "newton.min", families: scalarFamilies, variants: []string{"None", "LDL", "Eigenvalue"}, hookKind: "gy", iterBy: "eval", consOpt: true, hookOpt: true, smallCap: 3, bigCap: 100, epsDiv: 1, run: runNewtonMin},
-	{name: "rprop", families: scalarFamilies, variants: []string{"1.2/0.5", "2/0.1", "1.5/0.8"}, hookKind: "gy", iterBy: "eval", consOpt: true, hookOpt: true, smallCap: 3, bigCap: 1500, epsDiv: 1, run: runRprop},
-	{name: "rprop.gradient", families: scalarFamilies, variants: []string{"1.2/0.5", "2/0.1", "1.5/0.8"}, hookKind: "g", iterBy: "eval", consOpt: true, hookOpt: true, smallCap: 3, bigCap: 1500, epsDiv: 1, run: runRpropGradient},
+	{name: "bfgs", families: scalarFamilies, variants: []string{""}, hookKind: "gy", iterBy: "eval", consOpt: true, hookOpt: true, smallCap: 3, bigCap: 60, epsDiv: 1, run: runBfgs},
+	{name: "newton.root", families: []string{"polyroot"}, variants: []string{"None"}, hookKind: "gy", iterBy: "eval", consOpt: true, hookOpt: true, smallCap: 3, bigCap: 25, epsDiv: 1, run: runNewtonRoot},
+	{name: "newton.crit", families: scalarFamilies, variants: []string{"None", "LDL", "Eigenvalue"}, hookKind: "g", iterBy: "eval", consOpt: true, hookOpt: true, smallCap: 3, bigCap: 25, epsDiv: 1, run: runNewtonCrit},
+	{name: "newton.min", families: scalarFamilies, variants: []string{"None", "LDL", "Eigenvalue"}, hookKind: "gy", iterBy: "eval", consOpt: true, hookOpt: true, smallCap: 3, bigCap: 25, epsDiv: 1, run: runNewtonMin},
+	{name: "rprop", families: scalarFamilies, variants: []string{"1.2/0.5", "2/0.1", "1.5/0.8"}, hookKind: "gy", iterBy: "eval", consOpt: true, hookOpt: true, smallCap: 3, bigCap: 300, epsDiv: 1, run: runRprop},
+	{name: "rprop.gradient", families: scalarFamilies, variants: []string{"1.2/0.5", "2/0.1", "1.5/0.8"}, hookKind: "g", iterBy: "eval", consOpt: true, hookOpt: true, smallCap: 3, bigCap: 300, epsDiv: 1, run: runRpropGradient},
 	{name: "gradientDescent", families: []string{"quad", "sepconv", "logistic"}, variants: []string{"0.5", "1", "1.5"}, hookKind: "gy", iterBy: "eval", hookOpt: true, epsDiv: 1, run: runGradientDescent},
-	{name: "adam", families: scalarFamilies, variants: []string{"0.05", "0.3"}, hookKind: "gy", iterBy: "eval", consOpt: true, hookOpt: true, smallCap: 3, bigCap: 600, epsDiv: 3, run: runAdam},
-	{name: "adam.gradient", families: scalarFamilies, variants: []string{""}, hookKind: "g", iterBy: "eval", consOpt: true, hookOpt: true, smallCap: 3, bigCap: 300, epsDiv: 3, run: runAdamGradient},
-	{name: "saga", families: []string{"quad"}, variants: []string{"dense1", "dense2", "sparse1", "sparse2"}, hookKind: "args", iterBy: "eval", hookOpt: true, smallCap: 3, bigCap: 400, epsDiv: 1, run: runSaga},
+	{name: "adam", families: scalarFamilies, variants: []string{"0.05", "0.3"}, hookKind: "gy", iterBy: "eval", consOpt: true, hookOpt: true, smallCap: 3, bigCap: 300, epsDiv: 3, run: runAdam},
+	{name: "adam.gradient", families: scalarFamilies, variants: []string{""}, hookKind: "g", iterBy: "eval", consOpt: true, hookOpt: true, smallCap: 3, bigCap: 200, epsDiv: 3, run: runAdamGradient},
+	{name: "saga", families: []string{"quad"}, variants: []string{"dense1", "dense2", "sparse1", "sparse2"}, hookKind: "args", iterBy: "eval", hookOpt: true, smallCap: 3, bigCap: 300, epsDiv: 1, run: runSaga},
 	{name: "lineSearch", families: scalarFamilies, variants: []string{"1", "0.1", "10"}, hookKind: "gy", iterBy: "eval", consOpt: true, hookOpt: true, smallCap: 3, bigCap: 20, epsDiv: 1, run: runLineSearch},
 }
 
